@@ -106,6 +106,17 @@ static void c08_case(const uint8_t* src, size_t len) {
                    st_name(r5.status), r5.read, rec_n, st_name(res.status), res.read, n1);
     VH_COUNT("minimal_table_calls", 1);
   }
+  /* re-entrancy: the callback decodes something else (embedded CBOR) before it returns; the outer result is unaffected */
+  if (n1 == 1) {
+    rec_reset();
+    rec_reenter = 1;
+    struct cbor_decoder_result r6 = cbor_stream_decode(buf, len, &rec_table, &ctx);
+    rec_reenter = 0;
+    if (r6.status != res.status || r6.read != res.read || rec_n != n1 || rec_ev[0].slot != e1.slot || rec_ev[0].arg != e1.arg || rec_ev[0].ptr != e1.ptr || rec_ev[0].len != e1.len)
+      vh_violation("not-reentrant", "with a callback that itself calls cbor_stream_decode on another buffer the outer call gave %s/read=%zu/required=%zu/%d callbacks instead of %s/read=%zu/%d: state is shared between invocations",
+                   st_name(r6.status), r6.read, r6.required, rec_n, st_name(res.status), res.read, n1);
+    VH_COUNT("reentrant_calls", 1);
+  }
   /* a FINISHED result must not depend on bytes beyond `read` */
   if (res.status == CBOR_DECODER_FINISHED && res.read <= len && res.read > 0) {
     uint8_t* cut = vh_exact(buf, res.read);
